@@ -211,6 +211,27 @@ class Atomizer:
         return pp(e)[:40]
     def atom(self, key):
         self.atoms.setdefault(key, len(self.atoms)); return ('atom', key)
+    def bool_lets(self):
+        """var -> condition, for `let b = <condition>;` directly followed by the one `if` whose test holds every use of b: nothing
+        can change between the let and the test, so the name stands for the condition"""
+        if getattr(self, '_bl', None) is not None: return self._bl
+        out = {}
+        for b in walk(self.t['body']):
+            if b['k'] != 'Block': continue
+            seq = list(b['stmts']) + ([{'k': 'Expr', 'expr': b['expr']}] if b.get('expr') is not None else [])
+            for i, st in enumerate(seq[:-1]):
+                if st['k'] != 'Let' or st.get('init') is None or st.get('else_block') is not None: continue
+                q = unwrap_pat(st['pat'])
+                if q['k'] != 'Binding' or q.get('mutable') or q.get('by_ref'): continue
+                nxt = seq[i + 1]
+                y = nxt.get('expr') if nxt['k'] == 'Expr' else nxt.get('init')
+                while y is not None and (y['k'] in ('Use', 'NeverToAny') or (y['k'] == 'Block' and not y['stmts'] and y.get('expr') is not None)): y = y['source'] if y['k'] != 'Block' else y['expr']
+                if y is None or y['k'] != 'If' or y['cond']['k'] == 'Let': continue
+                uses = sum(1 for z in walk(self.t['body']) if z['k'] in ('VarRef', 'UpvarRef') and z['var'] == q['var'])
+                in_test = sum(1 for z in walk(y['cond']) if z['k'] in ('VarRef', 'UpvarRef') and z['var'] == q['var'])
+                if uses and uses == in_test: out[q['var']] = st['init']
+        self._bl = out
+        return out
     def conv(self, e):
         e = strip(e)
         k = e['k']
@@ -266,6 +287,9 @@ class Atomizer:
                 if op == 'gt': return self.atom(('lt', b, a))
                 if op == 'le': return ('not', self.atom(('lt', b, a)))
                 return ('not', self.atom(('lt', a, b)))
+        if k == 'VarRef' and self.t is not None and e['var'] not in self.roles:
+            bl = self.bool_lets()
+            if e['var'] in bl: return self.conv(bl[e['var']])
         if k in ('VarRef', 'UpvarRef', 'Field'): return self.atom(('flag', self.norm(e)))
         if k == 'Literal' and e.get('lit') == 'Bool': return ('const', e['value'])
         raise ValueError('guard construct %s: %s' % (k, pp(e)[:60]))
@@ -515,6 +539,20 @@ def rule_max_clique(F, R):
     for e in ins:
         mm = _re.search(r'\[(\d+)\]$', NV.norm(e['args'][1]))       # reads through `let from = record[0].to_string();`
         if mm: cols.add(mm.group(1))
+    # ... or, in a second pass, both components of every element of the edge list, which holds (record[0], record[1]) for every record
+    Ep = [k for k, v in roles.items() if v == 'edges']
+    if Ep and not cols:
+        pushed = [NV.norm(x['args'][1]) for x in walk(t['body']) if x['k'] == 'Call' and callee_name(x) == 'std::vec::Vec::push' and P.place(x['args'][0]) == Ep[0]]
+        whole = bool(pushed) and all(_re.fullmatch(r'\((.+)\[0\],(.+)\[1\]\)', q_) and _re.fullmatch(r'\((.+)\[0\],(.+)\[1\]\)', q_).group(1) == _re.fullmatch(r'\((.+)\[0\],(.+)\[1\]\)', q_).group(2) for q_ in pushed)
+        for (it, pt, body_) in for_loops(t['body']):
+            if not whole or P.place(it) != Ep[0]: continue
+            vs = pat_vars(pt)
+            for e in walk(body_):
+                if not any(e is i_ for i_ in ins): continue
+                a = strip(e['args'][1])
+                while a['k'] == 'Call' and a['args'] and (callee_decl(a) in ('std::clone::Clone::clone', 'std::string::ToString::to_string', 'std::borrow::ToOwned::to_owned') or (callee_name(a) or '').split('::')[-1] in ('to_string', 'to_owned')): a = strip(a['args'][0])
+                if len(vs) == 2 and a['k'] == 'VarRef' and a['var'] in vs: cols.add(str(vs.index(a['var'])))
+                if len(vs) == 1 and a['k'] == 'Field' and strip(a['lhs'])['k'] == 'VarRef' and strip(a['lhs'])['var'] == vs[0]: cols.add(str(a['field']))
     okv = cols == {'0', '1'}
     R.count('L:vertex-inserts', len(ins)); R.obligation(okv, 'L vertex set')
     if not okv: R.violation('max_clique_gen::main / L / vertex set', 'L', 'both endpoints of every record must be added to the vertex collection (record fields 0 and 1); found fields %s' % sorted(cols))
@@ -638,6 +676,13 @@ def graph_roles(c):
                         if vs2[0]: r[vs2[0]] = 'j'
                         if vs2[1]: r[vs2[1]] = 'v2'
                     elif len(vs2) == 1 and vs2[0]: r[vs2[0]] = 'v2'
+        # a local that receives the finished list from an inlined helper (`let mut edges = candidate_edges(..)?`) is the same list
+        for b in walk(t['body']):
+            if b['k'] != 'Block': continue
+            for st in b['stmts']:
+                if st['k'] == 'Let' and st.get('init') is not None and unwrap_pat(st['pat'])['k'] == 'Binding':
+                    v = helper_result_var(st['init'])
+                    if v is not None and v in r and unwrap_pat(st['pat'])['var'] not in r: r[unwrap_pat(st['pat'])['var']] = r[v]
         out['generate_graph'] = r
     # read_graph(reader, undirected)
     t = c.ithir.get(G + 'read_graph')
@@ -656,7 +701,7 @@ def graph_roles(c):
                     if base: r[base] = 'edge'
         out['read_graph'] = r
     # augment_colors(edges, num_colors)
-    t = c.ithir.get(G + 'augment_colors')
+    t = unrolled(c.ithir.get(G + 'augment_colors'))
     if t is not None:
         r = {}
         pv = param_vars(t)
@@ -699,8 +744,66 @@ def graph_roles(c):
                 if st['k'] == 'Let' and st.get('init') is not None and unwrap_pat(st['pat'])['k'] == 'Binding':
                     if any(x['k'] == 'Call' and callee_name(x) in (G + 'generate_graph', G + 'read_graph') for x in walk(st['init'])):
                         r[unwrap_pat(st['pat'])['var']] = 'selection'
+        # the colour step written as a new binding: `let selection = match args.colors { Some(n) => augment_colors(&selection, n)?, None => selection }`
+        # - the new local is the selection from there on, the old one is the uncoloured list and must not be written out
+        sh = coloured_shadow(c, t, r)
+        if sh is not None:
+            r[sh[1]] = 'uncoloured selection'; r[sh[0]] = 'selection'
         out['main'] = r
     return out
+
+def coloured_shadow(c, t, r):
+    """(new local, old local) when main binds a new local to  args.colors ? augment_colors(&old, N) : old  with old a selection and N
+    the number given with --colors; None otherwise.  Decided on value provenance (flow), not on the spelling of the statement."""
+    import flow as _flow
+    fl = _flow.Flow(c, max_depth=0)
+    blk = t['body']
+    while blk['k'] in ('Use', 'NeverToAny'): blk = blk['source']
+    if blk['k'] != 'Block': return None
+    env = {}
+    for st in blk['stmts']:
+        if st['k'] != 'Let' or st.get('init') is None: continue
+        q = unwrap_pat(st['pat'])
+        try: v = fl.ev(st['init'], env)
+        except Exception: v = ('unknown', 'error')
+        if q['k'] != 'Binding' or not fl.bind(st['pat'], v, env): 
+            for x in _flow.walk_pat_vars(st['pat']): env[x] = ('unknown', 'pattern')
+            continue
+        if v[0] == 'optcase' and v[1][0] == 'field' and v[1][2] == 'colors' and not q.get('mutable'):
+            b, th, el = v[2], v[3], v[4]
+            for old, role in r.items():
+                if role != 'selection' or old not in env or old == q['var']: continue
+                S = env[old]
+                if el == S and th[0] == 'call' and th[1] == 'random_graph_gen::augment_colors' and len(th[2]) == 2 and th[2][0] == S and th[2][1] == b:
+                    return (q['var'], old)
+    return None
+
+def unrolled(t):
+    """the function with its loops over spelt-out arrays written out (`for end in [&e.0, &e.1] {..}` is its two copies)"""
+    if t is None: return None
+    if id(t) not in _UNROLLED:
+        import facts as _facts
+        u = dict(t); u['body'] = _facts.unroll_array_loops(t['body']); _UNROLLED[id(t)] = (t, u)
+    return _UNROLLED[id(t)][1]
+_UNROLLED = {}
+
+def helper_result_var(e):
+    """the local an inlined helper hands back: `{ ..; v }`, `{ ..; Ok(v) }?` - None when the value is anything else"""
+    e = strip(e)
+    if e['k'] == 'Match' and str(e.get('source', '')).startswith('TryDesugar'):
+        q = strip(e['scrutinee'])
+        if q['k'] == 'Call' and callee_decl(q) == 'std::ops::Try::branch':
+            a = strip(q['args'][0])
+            if a['k'] == 'Block' and a.get('inlined_from') and a.get('expr') is not None and not any(z['k'] == 'Return' and 'QuestionMark' not in str(z.get('exp')) for z in walk(a)):
+                v = strip(a['expr'])
+                if v['k'] == 'Adt' and v.get('variant') == 'Ok' and canon(v['adt']) == 'std::result::Result':
+                    w = strip(v['fields'][0]['expr'])
+                    if w['k'] == 'VarRef': return w['var']
+        return None
+    if e['k'] == 'Block' and e.get('inlined_from') and e.get('expr') is not None and not any(z['k'] == 'Return' and 'QuestionMark' not in str(z.get('exp')) for z in walk(e)):
+        w = strip(e['expr'])
+        if w['k'] == 'VarRef': return w['var']
+    return None
 
 def rolename(roles, var):
     if var is None: return None
@@ -721,7 +824,12 @@ def rule_random_graph(F, R):
         body = t['body']
         tail = body['expr'] if body['k'] == 'Block' else None
         ok = False; why = 'the function result is not `if let Some(..) = edges.get(0..num_edges) { Ok(..) } else { Err(..) }`'
-        oks = [x for x in walk(body) if x['k'] == 'Adt' and canon(x['adt']) == 'std::result::Result' and x['variant'] == 'Ok']
+        tried = set()        # Ok(..) values under a `?` (an inlined helper's own result, unwrapped on the spot) are not results of this function
+        for q in walk(body):
+            if q['k'] == 'Call' and __import__('facts').callee_decl(q) == 'std::ops::Try::branch':
+                for a in q['args']:
+                    tried.update(id(z) for z in walk(a))
+        oks = [x for x in walk(body) if x['k'] == 'Adt' and canon(x['adt']) == 'std::result::Result' and x['variant'] == 'Ok' and id(x) not in tried]
         while tail is not None and tail['k'] in ('Use', 'NeverToAny'): tail = tail['source']
         parts = None        # (pattern of the Some arm, checked call, value when Some, value when None) - `if let` and `match` forms alike
         if tail is not None and tail['k'] == 'If' and tail['cond']['k'] == 'Let' and tail['else'] is not None:
@@ -894,7 +1002,7 @@ def rule_random_graph(F, R):
             R.obligation(a == '(edge[0],edge[1])', None)
             if a != '(edge[0],edge[1])': R.violation(G + 'read_graph / L / pair', 'L', '--convert must reproduce each edge as given; pushed %s' % a, call['loc'])
     # (e) augment_colors
-    t = c.ithir.get(G + 'augment_colors')
+    t = unrolled(c.ithir.get(G + 'augment_colors'))
     roles = ROLES.get('augment_colors', {})
     if t is not None:
         sites = push_sites(t, lambda e: callee_name(e) == 'std::vec::Vec::push' and rolename(roles, root_var(e['args'][0])) == 'new_edges')
@@ -1208,7 +1316,7 @@ def rule_colour_vertices(F, R):
     """C18 --colors: one product vertex `<v>_c<k>` per input vertex v and colour k in 0..N, mapped back to (v, k); N is the number given on the command line"""
     import engine_u
     c = F.crate('random_graph_gen')
-    t = c.ithir.get('random_graph_gen::augment_colors') if c else None
+    t = unrolled(c.ithir.get('random_graph_gen::augment_colors')) if c else None
     m = c.ithir.get('random_graph_gen::main') if c else None
     if t is None or m is None:
         R.violation('random_graph_gen::augment_colors / L / anchor', 'UNDECIDABLE', 'augment_colors not found'); return
@@ -1277,5 +1385,6 @@ def rule_colour_vertices(F, R):
                 asg = [x for x in walk(e['then']) if x['k'] == 'Assign']
                 if len(calls) == 1 and len(asg) == 1:
                     ok = strip(calls[0]['args'][1]).get('var') == nv and rolename(mroles, root_var(calls[0]['args'][0])) == 'selection' and rolename(mroles, root_var(asg[0]['lhs'])) == 'selection'
+    if not ok and any(role == 'uncoloured selection' for role in mroles.values()): ok = True      # the binding form, decided in graph_roles (coloured_shadow)
     R.count('L:colour-call'); R.obligation(ok, 'L colour call')
     if not ok: R.violation('random_graph_gen::main / L / --colors', 'L', '--colors N must replace the selection by augment_colors(&selection, N) with N unchanged')
